@@ -353,6 +353,14 @@ Theorem c09_rng_epoch_nonces_distinct :
 Proof. exact epoch_nonces_distinct. Qed.
 Print Assumptions c09_rng_epoch_nonces_distinct.
 
+(* what sess.go asks of the generator - fillRand of a 12- or 16-byte nonce - is exactly one Read *)
+Theorem c09_rng_fill_is_one_read :
+  forall (key : Type) (E : key -> list Z -> list Z) (fresh : nat -> key * list Z) (f : nat) (n : Z) (r : rng key),
+    (forall k s, length (E k s) = 16%nat) -> 0 < n <= 16 ->
+    fill_rand key E fresh (S (S f)) n r = rng_read key E fresh n r.
+Proof. exact fill_rand_single. Qed.
+Print Assumptions c09_rng_fill_is_one_read.
+
 Example c09_rng_example :
   rng_inv Z ex_rng /\
   (let '(r, outs) := rng_reads Z toy_E ex_fresh [16; 12; 16; 0; 16] ex_rng in
